@@ -205,6 +205,16 @@ func (a *effAnalysis) locs(v ssa.Value, seen map[ssa.Value]bool) []string {
 	case *ssa.Const, *ssa.Function, *ssa.Builtin, *ssa.MakeClosure, *ssa.BinOp:
 		return nil
 	case *ssa.Call:
+		if b, ok := x.Call.Value.(*ssa.Builtin); ok {
+			switch b.Name() {
+			case "append":
+				// the result is the first operand's storage or a fresh array
+				return append(a.locs(x.Call.Args[0], seen), "L")
+			case "min", "max", "len", "cap", "real", "imag", "complex":
+				return nil
+			}
+			return []string{"L"}
+		}
 		if f := x.Call.StaticCallee(); f != nil {
 			n := calleeName(x)
 			if freshReturning[n] {
@@ -223,12 +233,14 @@ func (a *effAnalysis) locs(v ssa.Value, seen map[ssa.Value]bool) []string {
 var freshReturning = map[string]bool{
 	"slices.Collect": true, "slices.Clone": true, "slices.Concat": true, "strings.Split": true, "fmt.Sprintf": true,
 	"fmt.Errorf": true, "strconv.Quote": true, "strings.Join": true, "slices.Backward": true,
+	"slices.Values": true, "slices.All": true, "slices.Sorted": true, "slices.SortedFunc": true, "maps.Keys": true, "maps.Values": true,
 }
 
 // library calls: which pointer-like arguments may be written.
 func libWritesArg(name string, i int) bool {
 	switch {
-	case strings.HasPrefix(name, "slices.Sort"), name == "slices.Reverse", strings.HasPrefix(name, "sort."):
+	case strings.HasPrefix(name, "slices.Sort"), name == "slices.Reverse", strings.HasPrefix(name, "sort."),
+		name == "slices.AppendSeq", name == "slices.Insert", name == "slices.Delete", name == "slices.Compact", name == "slices.CompactFunc":
 		return i == 0
 	case strings.HasPrefix(name, "fmt.Fprint"), strings.HasPrefix(name, "fmt.Fscan"):
 		return i == 0
